@@ -78,12 +78,13 @@ def asm_block(name, n_ring=2, pitch=0.0040, dpin=0.0032, wire=0.0004, clr=0.0002
 
 
 def power_csv(path, asm_list, length=1.0, n_cells=2, shape=(1.0, 0.5), scale=1000.0, components=('pins', 'duct', 'cool'),
-              vary=True):
+              vary=True, ids=None):
     """asm_list: [(n_ring or 0 for unrodded-only, n_duct)] per assembly (1-based ids in file).
     Linear power per item: scale * (c0 + c1 * zeta), zeta in [-1/2, 1/2] within each power cell."""
     rows = []
     edges = [length * k / n_cells for k in range(n_cells + 1)]
-    for a, (n_ring, n_duct) in enumerate(asm_list, start=1):
+    for k_, (n_ring, n_duct) in enumerate(asm_list):
+        a = ids[k_] if ids is not None else k_ + 1
         counts = {'pins': n_pins(n_ring), 'duct': n_duct_cells(n_ring) * n_duct, 'cool': n_sc(n_ring)}
         for ci, comp in enumerate(('pins', 'duct', 'cool'), start=1):
             if comp not in components:
@@ -124,13 +125,16 @@ def write_problem(wd, asms=None, positions=None, gap_model='flow', length=1.0, t
     def dassh_id(ring, pos):
         return 0 if ring == 1 else 3 * (ring - 2) * (ring - 1) + pos
     # the power file is indexed by DASSH position id, not by the order of the assignment list
+    pids = []
     for (nm, ring, pos, fr) in sorted(positions, key=lambda t: dassh_id(t[1], t[2])):
         kw = asms[nm]
         plist.append((kw.get('n_ring', 2), kw.get('n_duct', 1)))
+        pids.append(dassh_id(ring, pos) + 1)
     pfiles = []
     for t in range(timepoints):
         pf = os.path.join(wd, f'power_{t}.csv')
-        power_csv(pf, plist, length=length, n_cells=n_cells, scale=1000.0 * (1 + 0.25 * t), components=components)
+        power_csv(pf, plist, length=length, n_cells=n_cells, scale=1000.0 * (1 + 0.25 * t), components=components,
+                  ids=pids)
         pfiles.append(os.path.basename(pf))
     assign = '\n'.join(f'        {nm} = {ring}, {pos}, {pos}, FLOWRATE={fr}' for nm, ring, pos, fr in positions)
     txt = f"""[Setup]
